@@ -77,13 +77,13 @@ func (x *cl) dump() (model.Observed, error) {
 	return all, nil
 }
 
-// verify polls (<= 60 s: failover, index visibility) until the full contents are admissible for the model.
+// verify polls (<= 90 s: failover, index visibility) until the full contents are admissible for the model.
 // With stable > 0 it keeps reading for that long afterwards (once a second): while a store is down the answering replica
 // changes when the failure is detected (first the master partition, then the first online one), and "which replica answers
 // never changes the answer" - a later inadmissible answer must become admissible again within the same 60 s (replica lag is
 // tolerated, a replica that lost acknowledged data is not).
 func (x *cl) verify(when string, stable time.Duration) {
-	deadline := time.Now().Add(60 * time.Second)
+	deadline := time.Now().Add(90 * time.Second)
 	var stableUntil time.Time
 	var diffs []string
 	for {
@@ -104,7 +104,7 @@ func (x *cl) verify(when string, stable time.Duration) {
 			if now.After(stableUntil) {
 				return
 			}
-			deadline = now.Add(60 * time.Second)
+			deadline = now.Add(90 * time.Second)
 			time.Sleep(time.Second)
 			continue
 		}
@@ -122,7 +122,7 @@ func (x *cl) verify(when string, stable time.Duration) {
 	if p := x.c.UnrecoveredPanic(); p != "" {
 		x.fail("%s: process panicked: %s", when, p)
 	}
-	x.fail("%s: contents differ from the acknowledged history for 60 s: %s", when, strings.Join(diffs, "; "))
+	x.fail("%s: contents differ from the acknowledged history for 90 s: %s", when, strings.Join(diffs, "; "))
 }
 
 // write sends the batch, retrying refusals for up to 60 s (bounded form of "accepted again as soon as a leader exists").
@@ -219,6 +219,9 @@ func newCl(cs *ev.Case, pt string, fail func(format string, a ...any)) *cl {
 	x := &cl{st: model.NewStore(), cs: cs, fail: fail, down: map[int]bool{}, paused: map[int]bool{}, visible: map[string]bool{}}
 	x.c = bb.NewCluster(5, map[string]string{"ptnum-pernode": pt})
 	x.c.Start()
+	// a request routed to a stopped (SIGSTOP) or just killed store can hang until the failure is detected: give up on it after
+	// 20 s and ask again, instead of spending the whole bounded-liveness window inside one request
+	x.c.SQL.HTTP.Timeout = 20 * time.Second
 	deadline := time.Now().Add(60 * time.Second)
 	for {
 		r, err := x.c.SQL.Query("", "create database "+db+" replicas 3", nil)
